@@ -508,7 +508,8 @@ def type_and_value(draw, cfg=None):
         return shared_base_case(d)
     if c['defaults'] and c['tags'] and c['implicit'] and not c.get('root_kinds') and c['max_depth'] >= 2 and d.pct(c.get('directed_pct', 2)):
         return empties_case(d)
-    if c['choice'] and c['tags'] and c['implicit'] and not c.get('root_kinds') and c['max_depth'] >= 2 and d.pct(c.get('directed_pct', 2) / 2.0):
+    if c['choice'] and c['tags'] and c['implicit'] and not c.get('root_kinds') and c['max_depth'] >= 2 and c.get('many_elems_pct', 3) \
+            and d.pct(c.get('directed_pct', 2) / 2.0):
         return many_choice_case(d)
     if c['defaults'] and not c.get('root_kinds') and c['max_depth'] >= 2 and d.pct(c.get('directed_pct', 2)):
         return codec_sensitive_default_case(d)
